@@ -120,6 +120,28 @@ def run(ctx):
                     ctx.violation("prior/support/positive-flag", "a negative value under the 'positive' flag gets the finite log-prior %r" % lp, case)
                     return
                 ctx.count("positive_flag_rejected")
+    # values exactly on the boundary of the support where the density is finite and not zero
+    from scipy import stats
+    for pr, x, want in ((["gamma", 1.0, 2.5], 0.0, math.log(2.5)), (["gamma", 1.0, 4.0], 0.0, math.log(4.0)), (["exponential", 2.5], 0.0, math.log(2.5)),
+                        (["beta", 1.0, 3.0], 0.0, float(stats.beta(1, 3).logpdf(0.0))), (["beta", 3.0, 1.0], 1.0, float(stats.beta(3, 1).logpdf(1.0))),
+                        (["beta", 1.0, 1.0], 0.0, 0.0), (["beta", 1.0, 1.0], 1.0, 0.0),
+                        (["uniform", 0.5, 2.0], 0.5, -math.log(1.5)), (["uniform", 0.5, 2.0], 2.0, -math.log(1.5)),
+                        (["log-uniform", 0.5, 2.0], 0.5, -math.log(0.5 * math.log(4.0))), (["log-uniform", 0.5, 2.0], 2.0, -math.log(2.0 * math.log(4.0)))):
+        for extra in (None, ["uniform", 0.1, 10.0]):
+            priors = {"p0": pr} if extra is None else {"p0": pr, "p1": extra}
+            vals = {"p0": x} if extra is None else {"p0": x, "p1": 1.0}
+            w = want + (0.0 if extra is None else -math.log(9.9))
+            case = {"priors": priors, "values": vals}
+            ctx.begin_case(case)
+            try:
+                lp = float(DeterministicInference(list(priors), M, priors).check_prior(dict(vals)))
+            except ZeroDivisionError:
+                lp = float("nan")
+            ctx.evaluated()
+            if not math.isfinite(lp) or abs(lp - w) > 1e-9:
+                ctx.violation("prior/boundary/" + pr[0], "log-prior %r at the boundary point %r of %s, the density there gives %r" % (lp, x, pr, w), case)
+                return
+            ctx.count("boundary_points")
     for i in range(n):
         k = 1 if i % 3 else rng.randint(2, 4)
         names = ["p%d" % j for j in range(k)]
